@@ -93,7 +93,13 @@ class RealContext(Context):
 
     def round(self, x, *, exact: bool = False):
         xr = self._round_prepare(x)
-        return Float(x=xr, ctx=self)
+        # nothing is rounded, so nothing is flagged: an operand that is the
+        # result of an earlier rounding must not report that rounding again
+        return Float(
+            x=xr, ctx=self,
+            invalid=False, divzero=False, overflow=False,
+            tiny_pre=False, tiny_post=False, inexact=False, carry=False,
+        )
 
     def round_at(self, x, n: int, *, exact: bool = False):
         raise RuntimeError('cannot round at a specific position in real context')
